@@ -106,6 +106,10 @@ def parseUsize (s : String) : Option Nat :=
   | some n => if n < 2 ^ 64 then some n else none
   | none => none
 
+/-- the token for a literal whose text (`Literal::to_string()`) is `s`: `parse_literal_number` keeps the number
+    `str::parse::<usize>` reads from it, if any -/
+def Tok.ofLiteralText (s : String) : Tok := .lit (parseUsize s)
+
 /-- `try_parse_arbitrary_int_type` -/
 def tryParseArbitraryIntType (s : String) : Option Nat :=
   match s.toList with
